@@ -200,7 +200,7 @@ def inputs(ctx):
                 ins.append({"id": "d%d" % n, "writer": w, "doc": d, "opts": _opts(rng, w), "force": force})
                 n += 1
     from .c03 import _rand_text
-    for k in range(150 if ctx.quick else 6000):
+    for k in range(150 if ctx.quick else 30000):
         pos = rng.sample(POSITIONS, rng.randrange(1, 4))
         base = _string_set("text", "x")
         for p in pos:
